@@ -5,18 +5,18 @@
 # usage: seed_confirm.sh <worktree-id> <name> <demo-crate> "<crates to test>"
 set -u
 ID=$1; NAME=$2; DEMOCRATE=$3; CRATES=$4
-WT=/tmp/seed/$ID
+WT=${SEED_ROOT:-/tmp/seed}/$ID
 cd $WT || exit 2
 export CARGO_TARGET_DIR=$WT/target
 DEMO=$(git status --porcelain -uall | grep '^??' | awk '{print $2}' | grep -E 'tests/.*\.rs$' | head -1)
 [ -z "$DEMO" ] && { echo "no demo file found"; exit 2; }
-git diff > /tmp/seed/$ID.patch
+git diff > ${SEED_ROOT:-/tmp/seed}/$ID.patch
 echo "patch: $(git diff --stat | tail -1)   demo: $DEMO"
-mv $DEMO /tmp/seed/$ID.demo.rs
+mv $DEMO ${SEED_ROOT:-/tmp/seed}/$ID.demo.rs
 PKGS=""; for c in $CRATES; do PKGS="$PKGS -p $c"; done
 echo "== existing tests with the change ($CRATES)"
 cargo test $PKGS --offline 2>&1 | grep -E "^test result|FAILED|error(\[|:)" | sort | uniq -c | head
-cp /tmp/seed/$ID.demo.rs $DEMO
+cp ${SEED_ROOT:-/tmp/seed}/$ID.demo.rs $DEMO
 T=$(basename $DEMO .rs)
 echo "== demo with the change (must fail)"
 cargo test -p $DEMOCRATE --test $T --offline 2>&1 | grep -E "^test result|error(\[|:)" | head -3
@@ -25,7 +25,7 @@ echo "== demo without the change (must pass)"
 cargo test -p $DEMOCRATE --test $T --offline 2>&1 | grep -E "^test result|error(\[|:)" | head -3
 git stash pop -q
 mkdir -p /verif/seeded/$NAME
-cp /tmp/seed/$ID.patch /verif/seeded/$NAME/patch.diff
+cp ${SEED_ROOT:-/tmp/seed}/$ID.patch /verif/seeded/$NAME/patch.diff
 cp $DEMO /verif/seeded/$NAME/$(basename $DEMO)
 cp SEEDED.md /verif/seeded/$NAME/SEEDED.md 2>/dev/null
 echo "stored in /verif/seeded/$NAME"
